@@ -10,6 +10,19 @@ BASELINE_OFF = ("cd /repo && env -u CNES_PANDORA_VERIF /venv/bin/python -m pytes
 
 # id -> (technique, level text, level note, design ref)
 CLAIMED = {
+    "C12": (
+        "Hypothesis-generated cost volumes vs. bracketing reference models; pipeline with/without confidence steps (differential)",
+        "Exploration: (a) the four confidence classes are called on generated volumes (NaN holes, ties, min/max, eta and "
+        "threshold grids incl. 0 and 1, pre-existing bands, suffixes, regularisation) and judged on band bookkeeping, "
+        "untouched cost volume / old bands, std of the left window, ambiguity count / risk_max / risk_min inside "
+        "brackets computed with eta +- 1e-6, 0 <= risk_min <= risk_max, interval bounds equal to the re-stated rule "
+        "and bracketing the winner, regularisation with quantile 1 only widening; (b) legal pipelines with 1-4 stacked "
+        "confidence steps are compared exactly with the same pipeline without them (disparity, flags, cost volume) and "
+        "on band order.",
+        "Trusted: references in pbt/props/c12.py. For 'max' measures only structural clauses of ambiguity/risk are "
+        "judged. Known finding C12/normalised-ambiguity-nan-on-constant-map is excluded by construction and counted.",
+        "DESIGN.md §5 C12",
+    ),
     "C11": (
         "Hypothesis-generated image pairs and cost volumes vs. naive region-enumeration reference (differential)",
         "Exploration: generated mono-band pairs (masks, no-data, user mask convention), integer cost volumes with NaN "
